@@ -89,6 +89,9 @@ func c17Calls(t *ref.Table, pool []string) []call {
 		for _, a := range mset {
 			for _, b := range mset {
 				x = append(x, call{p, []string{a, b}})
+				if p != "/new" {
+					continue // triples on the new pattern only: the validation loop does not depend on the node
+				}
 				for _, c := range mset {
 					x = append(x, call{p, []string{a, b, c}})
 				}
